@@ -37,6 +37,13 @@ pub enum Item {
 #[derive(Clone, Debug, Serialize, Deserialize)]
 pub struct Case {
     pub items: Vec<Item>,
+    /// read chunk sizes (cycled); empty = everything in one read
+    #[serde(default)]
+    pub chunks: Vec<usize>,
+    /// transport operation at which a read is interrupted once (ErrorKind::Interrupted), if that
+    /// operation is a read
+    #[serde(default)]
+    pub eintr_at: Option<usize>,
 }
 
 fn gen_plain_text(g: &mut G<'_>) -> String {
@@ -118,7 +125,7 @@ impl Prop for C02 {
         "C02"
     }
     fn rule(&self) -> String {
-        "cases = sequences of 0-40 commands over {QUERY, PREPARE, EXECUTE, SEND_LONG_DATA, CLOSE, INIT_DB, FIELD_LIST, PING, QUIT}. Query text comes from classes kept apart so the oracle never demands more than the property says: (A) built-in as the property spells them (`SELECT @@`/`select @@` + arbitrary tail; `USE `/`use ` + optional blanks + bare or back-quoted name (quoted names may contain spaces and ';') + optional ';' + optional trailing whitespace); (B) certainly not built-in (arbitrary UTF-8 incl. NUL and multi-byte, up to 20 KB, and look-alikes such as `SELECT @x`, `SELEC @@`, `USER()`, `USEFUL`, `use_db`); (C) grey spellings (`SeLeCt @@x`, `select@@x`, `USE\\tdb`, leading blanks) that may go either way; plus query / prepare / init payloads that are not UTF-8. Statement ids are arbitrary u32 values chosen by the shim. Oracle: executable model mapping the command list to the expected callback log (whole-log equality, so extra, missing or reordered callbacks all show). Non-trivial = >= 3 distinct command kinds, or a class-A USE, a look-alike, a grey or a non-UTF-8 item.".into()
+        "cases = sequences of 0-40 commands over {QUERY, PREPARE, EXECUTE, SEND_LONG_DATA, CLOSE, INIT_DB, FIELD_LIST, PING, QUIT}. Query text comes from classes kept apart so the oracle never demands more than the property says: (A) built-in as the property spells them (`SELECT @@`/`select @@` + arbitrary tail; `USE `/`use ` + optional blanks + bare or back-quoted name (quoted names may contain spaces and ';') + optional ';' + optional trailing whitespace); (B) certainly not built-in (arbitrary UTF-8 incl. NUL and multi-byte, up to 20 KB, and look-alikes such as `SELECT @x`, `SELEC @@`, `USER()`, `USEFUL`, `use_db`); (C) grey spellings (`SeLeCt @@x`, `select@@x`, `USE\\tdb`, leading blanks) that may go either way; plus query / prepare / init payloads that are not UTF-8. Statement ids are arbitrary u32 values chosen by the shim.  The client stream is delivered under a generated read chunking, and in 1 of 4 cases one read is interrupted once with ErrorKind::Interrupted (the library may report or retry it; either way the shim must only see what the client sent). Oracle: executable model mapping the command list to the expected callback log (whole-log equality, so extra, missing or reordered callbacks all show). Non-trivial = >= 3 distinct command kinds, or a class-A USE, a look-alike, a grey or a non-UTF-8 item.".into()
     }
     fn assumptions(&self) -> Vec<String> {
         vec!["grey spellings (class C) are only required to arrive verbatim if they reach on_query and bare if they reach on_init".into()]
@@ -196,7 +203,13 @@ impl Prop for C02 {
             let at = g.usize_in(0, items.len());
             items.insert(at, Item::Quit);
         }
-        Case { items }
+        let chunks = match g.weighted(&[3, 2, 2]) {
+            0 => vec![],
+            1 => vec![*g.pick(&[1usize, 2, 3, 5, 7])],
+            _ => (0..g.usize_in(1, 4)).map(|_| *g.pick(&[1usize, 2, 4, 9, 17, 64, 4096])).collect(),
+        };
+        let eintr_at = if g.chance(1, 4) { Some(g.usize_in(1, 80)) } else { None };
+        Case { items, chunks, eintr_at }
     }
     fn exec(&self, case: &Case) -> Exec {
         let mut ex = Exec::default();
@@ -358,12 +371,26 @@ impl Prop for C02 {
         }
         let mut conv = Conversation::new(cmds, vec![]);
         conv.auto_ids = Some(ids);
+        if !case.chunks.is_empty() {
+            conv.sched.sizes = case.chunks.iter().map(|&c| c.max(1)).collect();
+        }
+        if let Some(k) = case.eintr_at {
+            conv.fault = crate::transport::Fault::InterruptedRead(k);
+        }
         let o = run_with(&conv, None, false);
+        // an interrupted read may be reported (Err) or retried; if it was reported the log is a
+        // prefix of the model's
+        let interrupted = o.fault_fired_at_op.is_some();
+        if interrupted {
+            ex.class("read-interrupted(EINTR)");
+        }
         if let RunResult::Panic(p) = &o.result {
             ex.fail(format!("c02-panic|{}", panic_signature(p)), format!("run_on panicked: {}", o.result.brief()));
             return ex;
         }
-        if must_err {
+        if interrupted && o.result.is_err() {
+            // fine: reported
+        } else if must_err {
             if !o.result.is_err() {
                 ex.fail("c02-non-utf8-tolerated", format!("text that is not valid UTF-8 was sent, but run_on returned {}", o.result.brief()));
             }
@@ -382,22 +409,26 @@ impl Prop for C02 {
                 _ => false,
             }
         }
-        fn align(accepts: &[Accept], got: &[&Event], k: usize, gi: usize, memo: &mut std::collections::HashSet<(usize, usize)>) -> bool {
+        let allow_prefix = interrupted && o.result.is_err();
+        fn align(accepts: &[Accept], got: &[&Event], k: usize, gi: usize, memo: &mut std::collections::HashSet<(usize, usize)>, allow_prefix: bool) -> bool {
             if k == accepts.len() {
                 return gi == got.len();
+            }
+            if allow_prefix && gi == got.len() {
+                return true;
             }
             if !memo.insert((k, gi)) {
                 return false;
             }
             match &accepts[k] {
-                Accept::Nothing => align(accepts, got, k + 1, gi, memo),
+                Accept::Nothing => align(accepts, got, k + 1, gi, memo, allow_prefix),
                 Accept::Ends => gi == got.len(),
-                Accept::Exactly(w) => gi < got.len() && got[gi] == w && align(accepts, got, k + 1, gi + 1, memo),
-                Accept::GreyQuery(t) => align(accepts, got, k + 1, gi, memo) || (gi < got.len() && grey_ok(got[gi], t) && align(accepts, got, k + 1, gi + 1, memo)),
+                Accept::Exactly(w) => gi < got.len() && got[gi] == w && align(accepts, got, k + 1, gi + 1, memo, allow_prefix),
+                Accept::GreyQuery(t) => align(accepts, got, k + 1, gi, memo, allow_prefix) || (gi < got.len() && grey_ok(got[gi], t) && align(accepts, got, k + 1, gi + 1, memo, allow_prefix)),
             }
         }
         let mut memo = Default::default();
-        if !align(&accepts, &got, 0, 0, &mut memo) {
+        if !align(&accepts, &got, 0, 0, &mut memo, allow_prefix) {
             // explain with a greedy walk
             let mut gi = 0;
             let mut why = None;
